@@ -3,10 +3,10 @@
    kind 0 (resolution)  input : [0; eb; ec; em; ech; entry]      entry 0=.bin 1=.cbin 2=.meta
                         output: [file; outcome]                   file 0=None 1=.bin 2=.cbin
                                                                   outcome 1..5 = opened constructors
-   kind 1 (procedures)  input : [1; op; r; c; m; B; keep; chk; ow; sd; fault] ++ 9 x [st; a; b; c]
+   kind 1 (procedures)  input : [1; op; r; c; m; B; keep; chk; ow; sd; fault] ++ 10 x [st; a; b; c]
                                 op 0=compress_file 1=decompress_file 2=decompress_to_scratch
                                 fault -1 = none, k = the k-th instrumented call raises
-                        output: [outcome] ++ enc_list event ++ 9 x [st; a; b; c]
+                        output: [outcome] ++ enc_list event ++ 10 x [st; a; b; c]
                                 outcome 0=Done 1=Raised 2=Failed; event = [kind; x; y]
    kind 2 (codec)       input : [2; nc; ns; size] ++ ns*nc samples (row-major)
                         output: enc_zlist bounds ++ enc_list (enc_zlist payload_k)
@@ -76,7 +76,7 @@ Definition enc_outcome (o : outcome) : Z :=
   match o with Done => 0 | Raised => 1 | Failed => 2 end.
 
 Definition run_fs (opk r c m B keep chk ow sd fault : Z) (st : list Z) : list Z :=
-  let fs := fs_of_list (dec_states 9 st) in
+  let fs := fs_of_list (dec_states 10 st) in
   let steps :=
     if opk =? 0 then compress_steps r c m B (zb keep) (zb chk)
     else if opk =? 1 then decompress_steps r c m B PBin (zb keep) (zb chk) (zb ow)
